@@ -11,6 +11,11 @@ Theorem C14_no_lossy_bijection :
   forallb (fun m => let '(n, b, _) := m in negb b || negb (lossy n)) fn_meta = true.
 Proof. vm_compute. reflexivity. Qed.
 
+(* ... and every function the code lists as a bijection is one of the value-preserving functions of the model *)
+Theorem C14_bijections_value_preserving :
+  forallb (fun m => let '(n, b, _) := m in negb b || value_preserving n) fn_meta = true.
+Proof. vm_compute. reflexivity. Qed.
+
 (* what Expr::reduce_modulo_bijection looks through (probed on every function, regenerated on every run) is
    listed as a bijection, hence not lossy *)
 Theorem C14_reduction_strips_listed_bijections_only :
@@ -97,6 +102,7 @@ Check C14_unique_preserved.
 Print Assumptions C14_no_lossy_bijection.
 Print Assumptions C14_reduction_strips_listed_bijections_only.
 Print Assumptions C14_fresh_functions_listed.
+Print Assumptions C14_bijections_value_preserving.
 Print Assumptions C14_chain_listed.
 Print Assumptions C14_unique_preserved.
 Print Assumptions C14_rounding_bijections_refuted.
